@@ -64,9 +64,11 @@ ASSUMPTIONS = [
     'successor states are produced from a deep copy of the replayed state; the shortcut is cross-checked against a full replay on a '
     'fresh object for one transition of every expanded state (harness error on any difference)',
 ]
+# measured on a tree without the defects (the smallest space): quick 1688 states / 39584 transitions / 941 observations / 942
+# contents; thorough 11977 / 320267 / 6547 / 6548.  A tree with history-dependent state has more states, never fewer.
 FLOORS = {
-    'quick': {'states': 1500, 'transitions': 30000, 'outcomes': 150, 'validated': 30000, 'set:contents': 300},
-    'thorough': {'states': 10000, 'transitions': 200000, 'outcomes': 600, 'validated': 200000, 'set:contents': 2000},
+    'quick': {'states': 1200, 'transitions': 30000, 'outcomes': 600, 'validated': 30000, 'set:contents': 800},
+    'thorough': {'states': 9000, 'transitions': 250000, 'outcomes': 4500, 'validated': 250000, 'set:contents': 5500},
 }
 
 P = cp.Profiles
